@@ -17,6 +17,7 @@ import (
 	"os"
 	"path/filepath"
 	"reflect"
+	"slices"
 	"sort"
 	"strconv"
 	"strings"
@@ -41,6 +42,9 @@ type srcT struct {
 	// Cancel: the (scripted) source cancels the context of the Load while it is being read and then
 	// returns its map: the next source is not read any more, the Load fails with ctx.Err()
 	Cancel bool `json:",omitempty"`
+	// Rev (environment source): the variables are set in descending instead of ascending name order, which is the
+	// order os.Environ() lists them in: `A=1` before or after `A_B=2` decides which of the two survives
+	Rev bool `json:",omitempty"`
 }
 
 type readerT struct {
@@ -211,6 +215,18 @@ type cancelKey struct{}
 // is this never happens; when it does the barrier is only a scheduling aid (the outcome is judged against
 // both commit orders anyway), so after the first miss the wait drops from 2 s to 5 ms: a tree on which
 // every race misses must not turn a 15 s run into minutes.
+var envLoads, envConflicts, envNewline int // generator counters for the modelled environment source
+
+func envParts(name string) []string {
+	var parts []string
+	for _, p := range strings.Split(strings.ToLower(strings.TrimSpace(name)), "_") {
+		if p != "" {
+			parts = append(parts, p)
+		}
+	}
+	return parts
+}
+
 var barrierMissed atomic.Int64
 var barrierEver atomic.Bool
 
@@ -454,8 +470,12 @@ func (r *runT) stage(l *loadT) {
 					_ = os.Unsetenv(k)
 				}
 			}
-			for k, v := range s.M {
-				_ = os.Setenv(r.envPref+k, fmt.Sprint(v))
+			names := sortedMapKeys(s.M)
+			if s.Rev {
+				slices.Reverse(names)
+			}
+			for _, k := range names {
+				_ = os.Setenv(r.envPref+k, fmt.Sprint(s.M[k]))
 			}
 			// a variable that merely starts with the same letters does not belong to the prefix
 			_ = os.Setenv(strings.TrimSuffix(r.envPref, "_")+"X_NAME", "decoy")
@@ -937,8 +957,36 @@ func emit(id string, c caseT, st *hx.Stats) string {
 					faults++
 					continue
 				}
-				l.Tok("O")
-				kvsTerm(l, m)
+				if s.Kind == "env" {
+					// the environment source is modelled (Model/ConfigEnv.lean): ship os.Environ() as the source
+					// sees it (the entries with this case's stem, the decoy included) and the prefix
+					stem := strings.TrimSuffix(r.envPref, "_")
+					var ents []string
+					for _, e := range os.Environ() {
+						if strings.HasPrefix(e, stem) {
+							ents = append(ents, e)
+						}
+					}
+					l.Tok("E").Str(r.envPref).Strs(ents)
+					if !second {
+						envLoads++
+						names := sortedMapKeys(s.M)
+						for _, a := range names {
+							if strings.Contains(fmt.Sprint(s.M[a]), "\n") {
+								envNewline++
+							}
+							for _, b := range names {
+								pa, pb := envParts(a), envParts(b)
+								if a != b && len(pa) > 0 && len(pa) <= len(pb) && slices.Equal(pa, pb[:len(pa)]) {
+									envConflicts++
+								}
+							}
+						}
+					}
+				} else {
+					l.Tok("O")
+					kvsTerm(l, m)
+				}
 				if !second {
 					for k := range m {
 						seenKeys[strings.ToLower(k)]++
@@ -1066,6 +1114,15 @@ func emit(id string, c caseT, st *hx.Stats) string {
 		}
 		if races > 0 {
 			st.Count("with_two_racing_loads")
+		}
+		for ; envLoads > 0; envLoads-- {
+			st.Count("env_source_loads")
+		}
+		for ; envConflicts > 0; envConflicts-- {
+			st.Count("env_variable_pairs_on_one_path_or_prefix")
+		}
+		for ; envNewline > 0; envNewline-- {
+			st.Count("env_value_with_line_feed")
 		}
 		if n := barrierMissed.Swap(0); n > 0 {
 			for ; n > 0; n-- {
@@ -1231,9 +1288,12 @@ func genCase(r *hx.Rand, tier string) caseT {
 				s.M = statics[i]
 			case kinds[i] == "env":
 				s.M = map[string]any{}
-				for n := r.Range(0, 3); n > 0; n-- {
-					s.M[hx.Pick(r, []string{"NAME", "SERVER_PORT", "SERVER_HOST", "DEBUG", "A_B", "LEVEL", "DB_POOL_SIZE", "CACHE__TTL", "_RATE", "Timeout_", "x-y"})] = hx.Pick(r, []string{"1", "envv", "", "true", "8081", " padded ", "a=b", "0"})
+				for n := r.Range(0, 4); n > 0; n-- {
+					s.M[hx.Pick(r, []string{"NAME", "SERVER_PORT", "SERVER_HOST", "DEBUG", "A_B", "LEVEL", "DB_POOL_SIZE", "CACHE__TTL", "_RATE", "Timeout_", "x-y",
+						"A", "SERVER", "Name", "name", " NAME", "DB_POOL", "A_B_C", "A__B", "_", "server_port"})] = hx.Pick(r, []string{"1", "envv", "", "true", "8081", " padded ", "a=b", "0",
+						"x\nINJ_KEY=1", "\tq\t", "=", "a b", "v\n"})
 				}
+				s.Rev = r.Chance(1, 2)
 			case li > 0 && r.Chance(1, 2):
 				// a variation of what the source returned last time: keys vanish, values change
 				s.M = deepCopyMap(prev[i])
